@@ -39,6 +39,15 @@ impl StateMachine<'_> {
             return Ok(handled_line);
         }
 
+        // A hunk header is written when the first line of its hunk arrives: also when that line
+        // is the marker which opens a conflict region.
+        if let HunkHeader(Combined(_, InMergeConflict::No), parsed_hunk_header, line, raw_line) =
+            &self.state.clone()
+        {
+            if self.line.starts_with("++<<<<<<<") {
+                self.emit_hunk_header_line(parsed_hunk_header, line, raw_line)?;
+            }
+        }
         match self.state.clone() {
             HunkHeader(Combined(merge_parents, InMergeConflict::No), _, _, _)
             | HunkMinus(Combined(merge_parents, InMergeConflict::No), _)
